@@ -161,12 +161,20 @@ func c19Run(t *testing.T, run *Run, sc c19Scenario) {
 		dep("pz", "pz-t:80", server.ServiceOptions{Hosts: []string{"pz.example"}}, nil) &&
 		dep("st", "st-t:80", server.ServiceOptions{Hosts: []string{"st.example"}}, nil) &&
 		dep("bn", "bn-t:80", server.ServiceOptions{Hosts: []string{"bn.example"}}, nil) &&
-		dep("flt", "flt:80", server.ServiceOptions{Hosts: []string{"flt.example"}}, nil)
+		dep("flt", "flt:80", server.ServiceOptions{Hosts: []string{"flt.example"}}, nil) &&
+		// services below a stripped path prefix on the same hosts: "/app/x.y" is theirs, and the record
+		// names the path the client asked for
+		dep("plainapp", "plainapp-t:80", server.ServiceOptions{Hosts: []string{"plain.example"}, PathPrefixes: []string{"/app"}, StripPrefix: true}, nil) &&
+		dep("pzapp", "pzapp-t:80", server.ServiceOptions{Hosts: []string{"pz.example"}, PathPrefixes: []string{"/app"}, StripPrefix: true}, nil) &&
+		dep("stapp", "stapp-t:80", server.ServiceOptions{Hosts: []string{"st.example"}, PathPrefixes: []string{"/app"}, StripPrefix: true}, nil) &&
+		dep("bnapp", "bnapp-t:80", server.ServiceOptions{Hosts: []string{"bn.example"}, PathPrefixes: []string{"/app"}, StripPrefix: true}, nil)
 	if !ok {
 		return
 	}
 	w.Pause("pz", time.Second, 300*time.Millisecond)
 	w.Stop("st", time.Second, "closed")
+	w.Pause("pzapp", time.Second, 300*time.Millisecond)
+	w.Stop("stapp", time.Second, "closed")
 	if sc.Idx%3 == 2 {
 		// the proxy is restarted before it serves anything: the records are written by a proxy
 		// restored from the state file
@@ -190,6 +198,13 @@ func c19Run(t *testing.T, run *Run, sc c19Scenario) {
 			return
 		}
 		run.Count("scenarios_served_by_a_restored_proxy", 1)
+	}
+	svcFor := func(host, path string) string {
+		base := map[string]string{"plain.example": "plain", "pz.example": "pz", "st.example": "st", "bn.example": "bn"}[host]
+		if base != "" && (path == "/app" || strings.HasPrefix(path, "/app/")) {
+			return base + "app"
+		}
+		return ""
 	}
 	svcOf := map[string]string{"plain.example": "plain", "tls.example": "tlsredir", "buf.example": "buf", "bufok.example": "bufok", "pz.example": "pz", "st.example": "st", "flt.example": "flt", "bn.example": "bn"}
 	type outcome struct {
@@ -257,26 +272,38 @@ func c19Run(t *testing.T, run *Run, sc c19Scenario) {
 		case "bounced-200":
 			w.SetReqDelay(r.ID, "service.gate.passed", 2*time.Second)
 			t0 := w.Now()
-			w.GoReq(t0+OffArrival, Req{ID: r.ID + "-slow", Host: "bn.example", Path: "/slow", Lat: 3 * time.Second})
-			w.At(t0+time.Second, func() { w.Pause("bn", 10*time.Second, 30*time.Second) })
-			w.At(t0+4*time.Second, func() { w.Resume("bn") })
+			slowPath := "/slow"
+			if svcFor(r.Host, r.Path) != "" {
+				slowPath = "/app/slow"
+			}
+			w.GoReq(t0+OffArrival, Req{ID: r.ID + "-slow", Host: "bn.example", Path: slowPath, Lat: 3 * time.Second})
+			bsvc := "bn"
+			if sub := svcFor(r.Host, r.Path); sub != "" {
+				bsvc = sub
+			}
+			w.At(t0+time.Second, func() { w.Pause(bsvc, 10*time.Second, 30*time.Second) })
+			w.At(t0+4*time.Second, func() { w.Resume(bsvc) })
 			resp := w.Do(req)
 			outs[r.ID] = outcome{status: resp.Status, bodyLen: resp.BodyLen, complete: resp.Err == "" && resp.Status > 0, xtarget: resp.Target}
 			w.Wait()
 		case "bounced-503", "bounced-504":
 			w.SetReqDelay(r.ID, "service.gate.passed", 2*time.Second)
 			kind := r.Ending
+			bsvc := "bn"
+			if sub := svcFor(r.Host, r.Path); sub != "" {
+				bsvc = sub
+			}
 			w.At(w.Now()+time.Second, func() {
 				if kind == "bounced-503" {
-					w.Stop("bn", time.Second, "closed")
+					w.Stop(bsvc, time.Second, "closed")
 				} else {
-					w.Pause("bn", time.Second, 300*time.Millisecond)
+					w.Pause(bsvc, time.Second, 300*time.Millisecond)
 				}
 			})
 			resp := w.Do(req)
 			outs[r.ID] = outcome{status: resp.Status, bodyLen: resp.BodyLen, complete: resp.Err == "" && resp.Status > 0, xtarget: resp.Target}
 			w.Wait()
-			w.Resume("bn")
+			w.Resume(bsvc)
 		default:
 			resp := w.Do(req)
 			outs[r.ID] = outcome{status: resp.Status, bodyLen: resp.BodyLen, complete: resp.Err == "" && resp.Status > 0, xtarget: resp.Target}
@@ -321,6 +348,10 @@ func c19Run(t *testing.T, run *Run, sc c19Scenario) {
 			return
 		}
 		wantSvc := svcOf[r.Host]
+		if sub := svcFor(r.Host, r.Path); sub != "" {
+			wantSvc = sub
+			run.Count("requests_for_services_below_a_stripped_prefix", 1)
+		}
 		if str(rec, "service") != wantSvc {
 			fail("service-field:"+r.Ending, "request %s for host %s logged service=%q, expected %q", r.ID, r.Host, str(rec, "service"), wantSvc)
 			return
